@@ -135,6 +135,23 @@ func c17Case(k *fw.K, shape []int, lr lrSpec, src int) {
 		return
 	}
 	for round := 0; round < 2; round++ { // the same optimizer updates two different tensors
+		if (k.Index+round)%4 == 0 { // ... after stepping a tensor whose gradient is not finite (a diverged step; outcome ignored)
+			call(func() {
+				bw, _, berr := c17Weight(k, shape, 0)
+				if berr != nil {
+					return
+				}
+				inf := rt.MustLeaf(ref.Full(shape, math.Inf(1)), false)
+				if y, e := bw.Mul(inf); e == nil && tensor.BackPropagate(y) == nil {
+					bw.ResetGradContext(true)
+				}
+				nan := rt.MustLeaf(ref.Full(shape, math.NaN()), false)
+				if y, e := bw.Mul(nan); e == nil && tensor.BackPropagate(y) == nil {
+					_ = opt.Update(&bw)
+					k.Count("non_finite_updates_before_a_finite_one", 1)
+				}
+			})
+		}
 		var w tensor.Tensor
 		var what string
 		var err error
